@@ -9,7 +9,7 @@ package syntax
 
 // C14: quoted and unquoted forms of an import denote the same path; "." (quoted) is the current package.
 //@ func SanitizeImport pure
-//@   property C14
+//@   property C14 C02 C03 C04 C05 C06 C07 C11 C12 C15 C16
 //@   ensures [unquoted] !hasPrefix(i, "\"") && !hasSuffix(i, "\"") ==> result == (i == "." ? "" : i)
 //@   ensures [quoted] len(i) >= 2 && hasPrefix(i, "\"") && hasSuffix(i, "\"") && substr(i, 1, len(i) - 2) != "."
 //@             && !hasPrefix(substr(i, 1, len(i) - 2), "\"") && !hasSuffix(substr(i, 1, len(i) - 2), "\"") ==> result == substr(i, 1, len(i) - 2)
@@ -21,7 +21,7 @@ package syntax
 // whatever the import form. (That a local symbol is emitted as it stands needs word equations over the captures
 // that no installed solver decides in time: not stated, see DESIGN section 8.)
 //@ func CompileServiceValue pure
-//@   property C12 C02 C14
+//@   property C12 C02 C14 C03 C04 C05 C06 C07 C11 C15 C16
 //@   requires [wired] a != nil
 //@   ensures [pointer_prefix_kept] matches(expr, regexServiceValue) && hasPrefix(expr, "&") ==> hasPrefix(result, "&")
 //@   ensures [local_struct_as_written] inLang(expr, reFull("&?[A-Za-z][A-Za-z0-9_]*\\{\\}")) ==> result == expr
